@@ -113,11 +113,12 @@ type front interface {
 }
 
 type world struct {
-	f     front
-	seen  *url.URL
-	calls int
-	pool  map[string]bool // reference membership: what the add/remove calls made so far define
-	nreq  int             // requests sent with a cookie (selects the Cookie header layout)
+	f         front
+	seen      *url.URL
+	calls     int
+	pool      map[string]bool // reference membership: what the add/remove calls made so far define
+	nreq      int             // requests sent with a cookie (selects the Cookie header layout)
+	lostFront string          // first observation of the front handler's own cookie being wiped
 }
 
 func (w *world) upsert(u *url.URL, opts ...roundrobin.ServerOption) {
@@ -216,6 +217,9 @@ func (w *world) do(c *http.Cookie) result {
 		w.nreq++
 	}
 	rec := httptest.NewRecorder()
+	// a handler in FRONT of the balancer (another sticky tier, an auth layer) has already put a cookie of its own on
+	// the response: the balancer adds its affinity cookie, it does not replace what is there
+	rec.Header().Add("Set-Cookie", "front=1; Path=/")
 	before := w.calls
 	var panicked any
 	func() {
@@ -231,10 +235,17 @@ func (w *world) do(c *http.Cookie) result {
 	if r.served {
 		r.seen = ident(w.seen)
 	}
+	frontKept := false
 	for _, ck := range rec.Result().Cookies() {
 		if ck.Name == cookieName {
 			r.fresh = ck
 		}
+		if ck.Name == "front" {
+			frontKept = true
+		}
+	}
+	if !frontKept && w.lostFront == "" {
+		w.lostFront = fmt.Sprintf("the response already carried Set-Cookie: front=1 when the balancer was called; afterwards Set-Cookie is %q", rec.Header().Values("Set-Cookie"))
 	}
 	return r
 }
@@ -363,6 +374,11 @@ func others(s string) []string {
 func session(c ctx) {
 	clock.Freeze(base)
 	w := newWorld(c.rebalancer, c.enc)
+	defer func() {
+		if w.lostFront != "" {
+			c.violate("front-cookie-wiped", w.lostFront, nil)
+		}
+	}()
 	su, err := url.Parse(c.server)
 	if err != nil {
 		return
